@@ -15,7 +15,7 @@ from sismic.model import (Statechart, CompoundState, BasicState, FinalState, Tra
                           InternalEvent)
 from sismic.interpreter import Interpreter
 
-DEPTH = {'quick': 5, 'thorough': 7}
+DEPTH = {'quick': 5, 'thorough': 6}
 SYSTEMS = {'two': ('A', 'B'), 'three': ('A', 'B', 'C')}
 BASE = {'A': 1000, 'B': 2000, 'C': 3000}
 CAP = 4
